@@ -42,7 +42,19 @@ pub fn run(n: u64, mode: &str) {
             let op: String;
             let ret: bool;
             let protocol_pct = if mode == "draw" { 3 } else { 30 };
-            if g.result().is_none() && g.can_declare_draw() && rng.chance(1, 6) {
+            if g.result().is_some() && rng.chance(1, 2) {
+                // a finished game: every kind of action must be refused (claims included)
+                let c = if rng.chance(1, 2) { Color::White } else { Color::Black };
+                match rng.below(4) {
+                    0 => { ret = g.declare_draw(); op = "d".to_string(); }
+                    1 => { ret = g.offer_draw(c); op = format!("o{}", if c == Color::White { 'w' } else { 'b' }); }
+                    2 => { ret = g.accept_draw(); op = "a".to_string(); }
+                    _ => { ret = g.resign(c); op = format!("r{}", if c == Color::White { 'w' } else { 'b' }); }
+                }
+            } else if mode == "draw" && g.result().is_none() && g.can_declare_draw() && rng.chance(1, 8) {
+                let c = if rng.chance(1, 2) { Color::White } else { Color::Black };
+                ret = g.resign(c); op = format!("r{}", if c == Color::White { 'w' } else { 'b' });
+            } else if g.result().is_none() && g.can_declare_draw() && rng.chance(1, 6) {
                 // a claim that must succeed
                 ret = g.declare_draw(); op = "d".to_string();
             } else if roll >= protocol_pct || g.result().is_some() && roll >= 60 {
